@@ -110,6 +110,14 @@ def run_all(_):
                 calls.append({"npos": base_npos, "kws": [u]})
                 if named:
                     calls.append({"npos": base_npos, "kws": [named[-1], u]})
+        # option parameters given falsy values (False / None / 0): the wrapper must treat them like any other value, alone and next to an unadvertised name
+        flags = [q for q in named if q.startswith("_")]
+        for q in flags:
+            for lit in ("False", "None", "0"):
+                calls.append({"npos": base_npos, "kws": [q], "falsy": {q: lit}})
+                for u in UNADVERTISED[:3]:
+                    if u not in named:
+                        calls.append({"npos": base_npos, "kws": [q, u], "falsy": {q: lit}})
         g = fn.__globals__
         orig = g.get("implementation")
         # every call is made twice: acceptance must not depend on what was tried before (a wrapper may keep state)
@@ -122,6 +130,8 @@ def run_all(_):
 
             g["implementation"] = spy
             vals = {k: object() for k in call["kws"]}
+            for k, lit in call.get("falsy", {}).items():
+                vals[k] = {"False": False, "None": None, "0": 0}[lit]
             posvals = [object() for _ in range(call["npos"])]
             try:
                 inst = object.__new__(cls)
